@@ -22,6 +22,8 @@ CHECKS = {
     'C03': dict(ref='5/C03', text='Election safety as step obligations: vote-once / up-to-date / term discipline (E1), election start (E3), win only with a strict majority of current-term grants (E4), for cluster sizes 2-5 with both parities; relational three-node composition in the thorough tier.'),
     'C04': dict(ref='5/C04', text='Commit rule and monotone indices: R7 (majority of voters and current-term entry at the very step the commit index moves), R6 (matchIndex only from success replies), R1/RS (follower commit only over verified entries, never backwards), R8 (applied index).'),
     'C08': dict(ref='5/C08', text='File journal vs. in-memory journal on a symbolic disk: every operation sequence of bounded length with symbolic record sizes (J1, incl. file growth and close+reopen through the real parse loop) and kill-safety with a crash cut between any two primitive writes of one operation (J3).'),
+    'C09': dict(ref='5/C09', text='Snapshots: what compaction captures and what loading restores, with symbolic indices/terms/user state, applies between snapshot and trim, member set and consumers (S12, B2); chunked transfer with symbolic image and chunk sizes, interrupted by a disconnect or a newer snapshot at a symbolic chunk position (S4); kill at every primitive of the dump write / incoming transfer (S5); code version after load (V5). The fork variant is outside.'),
+    'C10': dict(ref='5/C10', text='Membership: leader-side gate and one-at-a-time with the no-op and an earlier membership entry at symbolic positions (M1), member set = fold of the log across append / truncation / re-send / apply on followers (M3), admin entry points (MA), member set in snapshots (S12).'),
     'C11': dict(ref='5/C11', text='Arguments of any size: packing with every mix of positional/keyword/control arguments (A1), size batching partitions nextIndex..lastIdx (A2), chunked transfer of a command of symbolic length n >= batch size through the real sender and the real follower handler (A3), journal growth (J1) and TCP framing of any length (T1).'),
     'C12': dict(ref='5/C12', text='Raising replicated methods (symbolic predicate decides which commands raise) through the real apply loop: no escape, no stall, callbacks once (X1) - the unchanged tree violates this (known finding F-RAISE); clauses that hold regardless keep other violations visible.'),
     'C13': dict(ref='5/C13', text='TCP framing through two real TcpConnection objects on a symbolic byte stream: symbolic frame lengths, receive-buffer size, short writes/EAGAIN and fragmentation (T1), corrupted length field (any 32-bit value) or payload (T2), disconnect (T3).'),
